@@ -3,7 +3,8 @@
     run; the object DAG (sharing explicit) and the recursion of derivative() are Model/Core.v. *)
 From Coq Require Import List Arith Bool Reals.
 From Coquelicot Require Import Coquelicot.
-From QV Require Import Base.RealOps Gen.OpsTable Model.Core Proofs.OpsRules Proofs.CoreR.
+From Coq Require Import QArith Qreals.
+From QV Require Import Base.RealOps Base.QOps Gen.OpsTable Model.Core Model.CoreQ Proofs.OpsRules Proofs.CoreR Proofs.QROps Proofs.QRCore.
 Import ListNotations.
 Local Open Scope R_scope.
 
@@ -47,6 +48,16 @@ Print Assumptions C03_unrelated.
 Theorem C03_self : forall l m v, meas_at l m v -> rderiv l m m = 1.
 Proof. exact deriv_self. Qed.
 Print Assumptions C03_self.
+
+(** what the correspondence EXECUTES is what the theorem is about: on a rational object list, whenever the
+    executed instance (over option Q, with the generated tables qsem / qd) computes a derivative, that
+    number is the true partial derivative of the real-valued formula *)
+Theorem C03_executed_is_derivative : forall (lq : list (obj Q)) m v k x,
+  wf R (injR lq) = true -> Dom (injR lq) -> meas_at (injR lq) m v -> (k < length (injR lq))%nat ->
+  qderiv (injQ lq) k m = Some x ->
+  is_derive (fun t => rvalue (set_value R (injR lq) m t) k) v (Q2R x).
+Proof. exact executed_is_derivative. Qed.
+Print Assumptions C03_executed_is_derivative.
 
 (** non-vacuity: r = (a * b) * (a * b) built through the shared intermediate t = a * b, a = 5, b = 4:
     the hypotheses hold and dr/da = 2 a b^2 = 160 *)
